@@ -577,6 +577,62 @@ class KeyGen:
         ident = rng.choice(ids) if ids and rng.random() < 0.8 else rng.choice([b'M0123', b'T0123'])
         return (which, ident)
 
+    # keys whose SearchKey.requirement is METADATA only / that need the content
+    def meta_leaf(self):
+        rng = self.rng
+        r = rng.random()
+        if r < 0.35:
+            return (rng.choice(['SET', 'UNSET']), rng.choice(SYSFLAGS))
+        if r < 0.5:
+            return (rng.choice(['BEFORE', 'ON', 'SINCE']), rng.choice(DAYS))
+        if r < 0.75:
+            return ('SEQ', gen_set(rng, self.n, self.uids, False))
+        if r < 0.95:
+            return ('UID', gen_set(rng, self.n, self.uids, True))
+        return ('NEW',)
+
+    def content_leaf(self):
+        rng = self.rng
+        r = rng.random()
+        if r < 0.35:
+            field = rng.choice(FIELDS)
+            return ('FIELD', field, gen_needle(rng, self.byname.get(field.lower()) or self.hvals))
+        if r < 0.5:
+            name = rng.choice(self.hnames)
+            return ('HEADER', name, gen_needle(rng, self.byname.get(name) or self.hvals))
+        if r < 0.75:
+            return (rng.choice(['BODY', 'TEXT']), gen_needle(rng, self.texts))
+        if r < 0.9:
+            return (rng.choice(['LARGER', 'SMALLER']), max(0, rng.choice(self.sizes) + rng.choice([-1, 0, 1])))
+        return (rng.choice(['SENTBEFORE', 'SENTON', 'SENTSINCE']), rng.choice(DAYS))
+
+    def or_meta_content(self):
+        """(program, the same with the OR operands exchanged): the only key of the
+        command that needs the message content is the SECOND operand of an OR
+        (possibly under NOT / inside a list); everything else is metadata-only,
+        so a load-on-request backend loads the content only if the OR's
+        requirement carries its second operand."""
+        rng = self.rng
+        a, b = self.meta_leaf(), self.content_leaf()
+
+        def wrap(core):
+            r = rng.random()
+            if r < 0.4:
+                k = core
+            elif r < 0.7:
+                k = ('NOT', core)
+            elif r < 0.85:
+                k = ('AND', [core, self.meta_leaf()])
+            else:
+                k = ('OR', self.meta_leaf(), core)
+            return k
+        state = rng.getstate()
+        p1 = [wrap(('OR', a, b))]
+        rng.setstate(state)
+        p2 = [wrap(('OR', b, a))]
+        extra = [self.meta_leaf() for _ in range(rng.choice([0, 0, 1]))]
+        return p1 + extra, p2 + extra
+
     def key(self, depth: int):
         rng = self.rng
         if depth <= 0 or rng.random() < 0.35:
